@@ -132,7 +132,7 @@ func VhRegister(f *PackagesFacade, pkg *packages.Package, absPath string, file *
 // VhCachePackage makes an imported (not globbed) package known to the facade: GetPackage finds it, its files are
 // not source files.
 func VhCachePackage(f *PackagesFacade, pkg *packages.Package) {
-	f.packagesCache[pkg.PkgPath] = pkg
+	f.cachePackage(pkg, nil)
 }
 
 // C20/C19 (glob filter, on-demand loads; engine-only): a package loaded later because a globbed controller uses one
